@@ -207,5 +207,5 @@ pub fn replay(id: &str, case: &serde_json::Value) -> i32 {
     };
     let server = env.rt.block_on(async { TestServer::start(&env.certs) }).expect("server");
     let addr = server.addr;
-    crate::core::replay_case::<Case>(id, case, 2, |c| env.rt.block_on(run_case(addr, &env.certs, c)))
+    crate::core::replay_case::<Case>(id, case, 2, |c| match crate::core::catch(|| env.rt.block_on(run_case(addr, &env.certs, c))) { Ok(o) => o, Err(p) => Outcome::fail(format!("panic:{}", crate::core::panics::normalise(&p)), format!("panicked: {p}")) })
 }
